@@ -138,7 +138,8 @@ def judge(case) -> Verdict:
     nested = any(i != j and R.pair_contains(p, q) for i, p in enumerate(pairs) for j, q in enumerate(pairs))
     adjacent = len(want) < len(set(pairs))
     v.nt(len(out) < len(objs) or nested or adjacent)
-    v.label("shorter" if len(out) < len(objs) else "same-length", cls_name, f"n={min(len(objs), 12)}")
+    v.label("shorter" if len(out) < len(objs) else "same-length", cls_name,
+            f"n={len(objs)}" if len(objs) <= 12 else ("n=13..32" if len(objs) <= 32 else "n>32"))
     return v
 
 
@@ -175,6 +176,48 @@ def case_st(draw, tier):
             w = (1 << (32 - plen)) - 1
             b = draw(st.integers(0, R.ALL1)) & ~w & R.ALL1
         nets.append([b & R.ALL1, w])
+    shape = draw(st.sampled_from(["mixed"] * 7 + ["run", "run", "tiles", "tiles", "tiles"]))
+    if shape == "run":
+        # a long run of consecutive equal-size networks (dozens of merges in a row), in any order
+        plen = draw(st.sampled_from([32, 32, 31, 30, 28]))
+        size = 1 << (32 - plen)
+        count = draw(st.one_of(st.integers(2, 40), st.integers(33, 130)))
+        first = draw(st.integers(0, 70))
+        nets = [[(pool + (first + i) * size) & R.ALL1, size - 1] for i in range(count)]
+        for _ in range(draw(st.integers(0, 3))):
+            if len(nets) > 2:
+                nets.pop(draw(st.integers(0, len(nets) - 1)))  # holes
+        if len(nets) > 1:
+            nets = list(draw(st.permutations(nets))) if draw(st.booleans()) else nets
+    elif shape == "tiles":
+        # a block X, pieces that tile X, pieces that tile the other half of X's supernet, X and that half themselves
+        # present or not, in any order (a network and the merged supernet that starts at the same address ...)
+        plen = draw(st.integers(24, 30))
+        w = (1 << (32 - plen)) - 1
+        x = (pool | (draw(st.integers(0, 63)) << 4)) & ~((w << 1) | 1) & R.ALL1  # lower half of its supernet
+        def tiles(b, w_, depth):
+            if depth == 0 or w_ == 0 or draw(st.sampled_from([True, True, False])) is False:
+                return [[b, w_]]
+            half = w_ >> 1
+            return tiles(b, half, depth - 1) + tiles(b | (half + 1), half, depth - 1)
+        nets = []
+        lower, upper = tiles(x, w, draw(st.integers(1, 3))), tiles(x | (w + 1), w, draw(st.integers(1, 3)))
+        for part, whole in ((lower, [x, w]), (upper, [x | (w + 1), w])):
+            keep = draw(st.sampled_from(["pieces", "pieces", "both", "whole", "some"]))
+            if keep in ("pieces", "both"):
+                nets += part
+            if keep in ("whole", "both"):
+                nets.append(whole)
+            if keep == "some":
+                nets += part[: max(1, len(part) - 1)]
+        order = draw(st.sampled_from(["as-is", "shuffled", "x-last", "reversed"]))
+        if order == "shuffled":
+            nets = list(draw(st.permutations(nets)))
+        elif order == "reversed":
+            nets.reverse()
+        elif order == "x-last" and [x, w] in nets:
+            nets.remove([x, w])
+            nets.append([x, w])
     case = {"cls": cls, "platform": platform, "nets": nets,
             "styles": draw(st.lists(st.integers(0, 9), min_size=1, max_size=4))}
     case["container"] = draw(st.sampled_from(["list", "list", "tuple", "iter", "generator"]))
